@@ -11,7 +11,20 @@ PID = "C04"
 LEVEL = "proof"
 LEAN_TARGETS = ["SyneTune.Props.C04"]
 DRIVER = "SyneTune/Drivers/Hb.lean"
-THEOREMS = []
+THEOREMS = [
+    "SyneTune.C04.pause_exactly_at_milestone",
+    "SyneTune.C04.milestone_is_next_level",
+    "SyneTune.C04.eligible",
+    "SyneTune.C04.else_new",
+    "SyneTune.C04.not_promotable_means",
+    "SyneTune.C04.history_invariant",
+    "SyneTune.C04.promoted_once",
+    "SyneTune.C04.promotion_recorded",
+    "SyneTune.C04.pasha_cap_monotone",
+    "SyneTune.C04.cost_rule",
+    "SyneTune.C04.rush_rule",
+    "SyneTune.C04.rush_stopping_stricter",
+]
 TRUSTED = [
     "hand-written model lean/SyneTune/Model/{Rung,HB}.lean tied to /repo by the hb correspondence stream",
     "Python harness harness/streams/hb.py (scripted workers, stub searcher, recording RandomState proxy)",
